@@ -21,7 +21,7 @@ ItemCfg == [flag : BOOLEAN, note : BOOLEAN, sub : 0..2]
 ItemDevs == {"none", "badqty", "missingtitle", "missingqty", "extrachild", "extrafirst", "swap",
              "badid", "missingid", "bogusattr", "bogusontitle", "badflag",
              "badsubqty", "emptysub", "extrainsub", "textinitem"}
-RootDevs == {"none", "extrainroot", "noitems", "bogusonroot"}
+RootDevs == {"none", "extrainroot", "extrafirstinroot", "noitems", "bogusonroot"}
 
 Node(p, name, decl, attrs, text) == [path |-> p, name |-> name, decl |-> decl, attrs |-> attrs, text |-> text]
 
@@ -85,21 +85,27 @@ ItemTarget(p, c, d) ==
 
 ------------------------------------------------------------------------------
 VARIABLES items,     \* configuration of each item
-          fault      \* [at |-> item index (0 = root), dev |-> deviation]
-CONSTANTS MaxItems
+          fault,     \* [at |-> item index (0 = root), dev |-> deviation]
+          fault2     \* a second deviation in ANOTHER place (only when Double; else "none")
+CONSTANTS MaxItems,
+          Double     \* TRUE: documents with two faults (used as pool documents: error ORDER matters)
 
 RECURSIVE AllItems(_, _)
+DevOf(i, f) == IF f.at = i THEN f.dev ELSE IF fault2.at = i THEN fault2.dev ELSE "none"
+Shift(f) == IF f.at = 0 /\ f.dev = "extrafirstinroot" THEN 1 ELSE 0
 AllItems(i, f) == IF i > Len(items) THEN <<>>
-                  ELSE ItemNodes(<<i>>, items[i], IF f.at = i THEN f.dev ELSE "none") \o AllItems(i + 1, f)
+                  ELSE ItemNodes(<<i + Shift(f)>>, items[i], DevOf(i, f)) \o AllItems(i + 1, f)
 Doc(f) ==
   LET n == IF f.at = 0 /\ f.dev = "noitems" THEN 0 ELSE Len(items)
       rootattrs == IF f.at = 0 /\ f.dev = "bogusonroot" THEN {<<"bogus", "ok">>} ELSE {}
   IN <<Node(<<>>, "lib", "lib", rootattrs, "-")>>
+     \o (IF f.at = 0 /\ f.dev = "extrafirstinroot" THEN <<Node(<<1>>, "zzz", "none", {}, "-")>> ELSE <<>>)
      \o (IF n = 0 THEN <<>> ELSE AllItems(1, f))
      \o (IF f.at = 0 /\ f.dev = "extrainroot" THEN <<Node(<<Len(items) + 1>>, "zzz", "none", {}, "-")>> ELSE <<>>)
 Target(f) == IF f.dev = "none" THEN <<>>
-             ELSE IF f.at = 0 THEN (IF f.dev = "extrainroot" THEN <<Len(items) + 1>> ELSE <<>>)
-             ELSE ItemTarget(<<f.at>>, items[f.at], f.dev)
+             ELSE IF f.at = 0 THEN (IF f.dev = "extrainroot" THEN <<Len(items) + 1>>
+                                    ELSE IF f.dev = "extrafirstinroot" THEN <<1>> ELSE <<>>)
+             ELSE ItemTarget(<<f.at + Shift(fault)>>, items[f.at], f.dev)
 
 IsPrefix(a, b) == Len(a) <= Len(b) /\ SubSeq(b, 1, Len(a)) = a
 Parent(p) == IF p = <<>> THEN <<>> ELSE SubSeq(p, 1, Len(p) - 1)
@@ -110,8 +116,13 @@ Init == /\ items \in UNION {[1..n -> ItemCfg] : n \in 1..MaxItems}
         /\ fault \in {[at |-> 0, dev |-> d] : d \in RootDevs}
                      \cup {[at |-> i, dev |-> d] : i \in 1..MaxItems, d \in ItemDevs \ {"none"}}
         /\ (fault.at = 0 \/ (fault.at <= Len(items) /\ Applicable(items[fault.at], fault.dev)))
-Next == FALSE /\ UNCHANGED <<items, fault>>
-Spec == Init /\ [][Next]_<<items, fault>>
+        /\ IF Double
+             THEN /\ fault2 \in {[at |-> i, dev |-> d] : i \in 1..MaxItems, d \in ItemDevs \ {"none"}}
+                  /\ fault.dev # "none" /\ fault.dev # "noitems" /\ fault2.at # fault.at
+                  /\ fault2.at <= Len(items) /\ Applicable(items[fault2.at], fault2.dev)
+             ELSE fault2 = [at |-> 0, dev |-> "none"]
+Next == FALSE /\ UNCHANGED <<items, fault, fault2>>
+Spec == Init /\ [][Next]_<<items, fault, fault2>>
 
 (* laws *)
 TargetExists == fault.dev = "none" \/ fault.dev \in {"noitems", "bogusonroot"}
@@ -119,6 +130,6 @@ TargetExists == fault.dev = "none" \/ fault.dev \in {"noitems", "bogusonroot"}
 PathsUnique == LET D == Doc(fault) IN
                  Cardinality({D[i].path : i \in DOMAIN D}) = Len(D)
 
-Emit == PrintT(ToJson([nodes |-> Doc(fault), fault |-> fault, valid |-> fault.dev = "none",
+Emit == PrintT(ToJson([nodes |-> Doc(fault), fault |-> fault, fault2 |-> fault2, valid |-> fault.dev = "none",
                        target |-> Target(fault), near |-> Near(fault)]))
 =============================================================================
